@@ -2539,6 +2539,11 @@ class CencSampleEncryptionBox(FullBox):
                 rv["iv_size"] = kwargs["options"].iv_size
         num_entries = r.get('I', 'num_entries')
         assert rv['iv_size'] in {8, 16}
+        if num_entries > (rv["position"] + rv["size"] - src.tell()):
+            # a corrupt count would otherwise be iterated over, whatever the
+            # size of the box
+            raise ValueError(
+                f'Invalid number of entries {num_entries} in senc box of {rv["size"]} bytes')
         rv["samples"] = []
         saiz = parent.find_child('saiz')
         if saiz is None:
